@@ -20,7 +20,7 @@ Q_CONFIGS = [(1, 0, False), (2, 0, False), (3, 1, False), (3, 1, True), (4, 1, T
 def shards(tier, seed):
     from vlib.runner import ALL_CONFIGS
     cfgs = Q_CONFIGS if tier == 'quick' else ALL_CONFIGS
-    return [{'name': config_name(c), 'cfg': list(c), 'programs': (10 if c[0] <= 5 else 5) if tier == 'quick' else 50} for c in cfgs]
+    return [{'name': config_name(c), 'cfg': list(c), 'programs': (20 if c[0] <= 5 else 10) if tier == 'quick' else 50} for c in cfgs]
 
 
 def make_program(rng, m, obs):
